@@ -32,9 +32,9 @@ EXHAUSTIVE_NOTE = ("all non-empty proper subsets for all (N<=12, batching) with 
                    "shuffle/form/kind are rotated, not crossed, except shuffle in thorough")
 SHARDS = {"quick": 8, "thorough": 16}
 MIN_REACH = {
-    "partial_reaps": {"quick": 400, "thorough": 15000},
-    "refusals_checked": {"quick": 400, "thorough": 15000},
-    "missing_positions_checked": {"quick": 1500, "thorough": 50000},
+    "partial_reaps": {"quick": 400, "thorough": 6000},
+    "refusals_checked": {"quick": 400, "thorough": 6000},
+    "missing_positions_checked": {"quick": 1500, "thorough": 30000},
     "full_reaps_after_partial": {"quick": 40, "thorough": 500},
 }
 TIME_BUDGET = {"quick": 400, "thorough": 3400}
